@@ -544,6 +544,16 @@ def cc_pandas_case(case):
         return ("diverge", "pandas", "raised %s: %s" % (type(ex).__name__, str(ex)[:200]))
     if [int(v) for v in res["c"].tolist()] != list(labels):
         return ("diverge", "pandas", {"got": res["c"].tolist(), "expected": labels})
+    # columns of different dtypes: order-preserving rendering v -> v (even) | v + 0.5 (odd); usable when f holds even vertices only
+    if all(v % 2 == 0 for v in f):
+        mp = lambda v: float(v) if v % 2 == 0 else v + 0.5   # noqa: E731
+        d2 = pandas.DataFrame({"f": pandas.Series([int(v) for v in f], dtype="int64"), "g": pandas.Series([mp(v) for v in g], dtype="float64")})
+        try:
+            res2 = descr(d=d2).extend({"c": "f.co_equalizer(g)"}).transform(d2)
+        except Exception as ex:  # noqa: BLE001
+            return ("diverge", "pandas/mixed-dtypes", "raised %s: %s" % (type(ex).__name__, str(ex)[:200]))
+        if [float(v) for v in res2["c"].tolist()] != [mp(v) for v in labels]:
+            return ("diverge", "pandas/mixed-dtypes", {"got": res2["c"].tolist(), "expected": [mp(v) for v in labels]})
     return ("ok",)
 
 
@@ -789,8 +799,26 @@ def sc_replay_case(case):
     import data_algebra.data_schema as dsm
     sw = dsm.SchemaCheckSwitch()
     sw.on()
+    # functions are ALSO decorated ahead of time, right after the first event of the history (so that a decoration made
+    # while checking is off is later called with checking on): the switch is consulted when the function is CALLED
+    early = {}
     try:
         for i, e in enumerate(case["hist"]):
+            if i == 1 or (i == 0 and e["op"] == "call"):
+                for j, e2 in enumerate(case["hist"]):
+                    if e2["op"] == "call":
+                        c2 = e2["call"]
+                        specs2 = {}
+                        if c2["aspec"] != "UNDECL":
+                            specs2["a"] = sc_spec(c2["aspec"])
+                        if c2["bspec"] != "UNDECL":
+                            specs2["b"] = sc_spec(c2["bspec"])
+                        rv2 = sc_value(c2["r"], "pandas")
+
+                        @dsm.SchemaRaises(specs2, return_spec=sc_spec(c2["rspec"]))
+                        def g(a="default_a", b="default_b", _rv=rv2):
+                            return _rv
+                        early[j] = (g, rv2)
             if e["op"] == "on":
                 sw.on()
                 continue
@@ -829,6 +857,16 @@ def sc_replay_case(case):
                     return ("diverge", i, {"lib": lib, "raised": raised, "expected": e["raises"], "detail": str(got)[:200]})
                 if not raised and got is not retval:
                     return ("diverge", i, {"lib": lib, "why": "return value is not the function's own result"})
+                if lib == "pandas" and i in early:
+                    g, rv2 = early[i]
+                    try:
+                        got2 = g(*args, **kwargs)
+                        raised2 = False
+                    except TypeError as ex:
+                        raised2, got2 = True, str(ex)[:200]
+                    if raised2 != e["raises"]:
+                        return ("diverge", i, {"lib": lib, "why": "function decorated earlier in the history", "raised": raised2,
+                                               "expected": e["raises"], "detail": str(got2)[:200]})
     finally:
         sw.on()
     return ("ok",)
